@@ -19,3 +19,10 @@ open XotModel.Props
 #print axioms C02_spelled_document
 #print axioms C02_fragment_spelled
 #print axioms C02_envBase_fresh
+#print axioms C02_envBaseNs_fresh
+#print axioms C02_spelled_ns_fragment
+#print axioms C02_spelled_ns_document
+#print axioms C02_fragment_spelled_ns
+#print axioms C02_endtag_as_written
+#print axioms C02_positions_irrelevant
+#print axioms C02_positions_irrelevant_ok
